@@ -148,7 +148,7 @@ func checkOptions(w *W, what string, o optObj, isPipe bool) bool {
 }
 
 func c19Table(w *W) {
-	kind := allKinds[(w.RunIdx/3)%len(allKinds)]
+	kind := allKinds[w.ScenOrd%len(allKinds)]
 	w.SetShape("kind", kind)
 	mn := w.UseMsgNet()
 	w.UseNet(NetCfg{})
